@@ -23,10 +23,10 @@ EXHAUSTIVE_NOTE = {"quick": "12 sizes x 20 residues enumerated completely; integ
 ASSUMPTIONS = [
     "the documented partitions are those listed in the library documentation for sizes 2,3,4,5,6,8,10,11,12,15,18,20",
     "for a user alphabet the 'representatives' are the distinct images of the 20 amino acids",
-    "user dictionaries with keys beyond the 20 amino acids are not driven (statement silent)",
+    "entries of a user dictionary for keys beyond the 20 amino acids take no part in the reduction nor in the alphabet",
 ]
 REQUIRED = {"all": ["cells_checked", "sizes_rejected", "laws_checked", "user_total_accepted", "user_invalid_rejected",
-                    "user_switch_on_same_object", "size_forms_accepted"]}
+                    "user_switch_on_same_object", "size_forms_accepted", "user_total_with_extra_keys"]}
 SIZES = [2, 3, 4, 5, 6, 8, 10, 11, 12, 15, 18, 20]
 NSEQ = {"quick": 600, "thorough": 4000}
 NUSER = {"quick": 800, "thorough": 6000}
@@ -163,7 +163,13 @@ def judge_user(case, rep, S):
     for step in range(4):
         images = rng.sample(list(M.AA), rng.randint(1, 6))
         ua = {a: rng.choice(images) for a in M.AA}
-        kind = rng.choice(["total", "total", "partial", "lower_value", "non_aa_value", "non_dict", "wrong_type_value"])
+        kind = rng.choice(["total", "total", "total_with_extras", "partial", "lower_value", "non_aa_value", "non_dict", "wrong_type_value"])
+        if kind == "total_with_extras":
+            # entries for keys that are not amino acids (ambiguity codes, lower case) are not part of the alphabet
+            for extra in rng.sample(["B", "Z", "X", "U", "a", "k", "*"], rng.randint(1, 3)):
+                ua[extra] = rng.choice(list(M.AA))
+            rep.cnt("user_total_with_extra_keys")
+            kind = "total"
         if kind == "total":
             try:
                 out, alpha = red(obj, userAlphabet=ua) if rng.random() < 0.5 else red(obj, alphabetSize=rng.choice([2, 20, 7]), userAlphabet=ua)
@@ -183,8 +189,9 @@ def judge_user(case, rep, S):
             for a in ua.values():
                 if a not in reps:
                     reps.append(a)
-            if sorted(alpha) != sorted(set(ua.values())) or len(alpha) != len(set(alpha)):
-                rep.viol("user_alphabet_list", "user alphabet with images %r returned alphabet %r on %s" % (sorted(set(ua.values())), alpha, seq))
+            images20 = sorted(set(ua[a] for a in M.AA))
+            if sorted(alpha) != images20 or len(alpha) != len(set(alpha)):
+                rep.viol("user_alphabet_list", "user alphabet whose 20 residues map onto %r returned alphabet %r on %s" % (images20, alpha, seq))
         else:
             bad = dict(ua)
             if kind == "partial":
